@@ -4,6 +4,8 @@ from . import hashing as H
 
 
 def check(ck):
+    from .memo import check_new_memo_tables
+    ck.run(check_new_memo_tables, ck, "C03.M1", ('code_hash', 'memento', 'configuration'))
     ck.run(H.check_determinism_taint, ck, "C03.R1")
     ck.run(H.check_ordered_iteration, ck, "C03.R2")
     ck.run(H.check_update_protocol, ck, "C03.R3")
